@@ -40,6 +40,9 @@ type PackageLockedp struct {
 func (f *PackageLockedp) Call(s *slip.Scope, args slip.List, depth int) slip.Object {
 	slip.CheckArgCount(s, depth, f, args, 1, 1)
 	pkg := slip.PackageFromArg(args[0])
+	if pkg == nil {
+		slip.PackagePanic(s, depth, nil, "Package %s does not exist.", args[0])
+	}
 	if pkg.Locked {
 		return slip.True
 	}
